@@ -55,6 +55,10 @@ PROPS = {
     "C01": dict(module="ZkElGamal.Props.C01", ns="Zk.Props.C01", trusted=[DALEK, MERLIN], assumptions=[ROM, DALEK, MERLIN]),
     "C02": dict(module="ZkElGamal.Props.C02", ns="Zk.Props.C02", trusted=[DALEK, MERLIN], assumptions=[ROM, DALEK, MERLIN]),
     "C03": dict(module="ZkElGamal.Props.C03", ns="Zk.Props.C03", trusted=[DALEK, MERLIN], assumptions=[ROM, DALEK, MERLIN]),
+    "C04": dict(module="ZkElGamal.Props.C04", ns="Zk.Props.C04", trusted=[DALEK, MERLIN],
+                assumptions=[ROM, DALEK, MERLIN,
+                             "Bulletproofs knowledge soundness (an extractor for the aggregated range proof) is NOT proved: 'a value outside the range is never accepted' rests on mega_decompose + the batching bound + differential testing of the model prover's out-of-range / wrong-commitment / residual attempts against both verifiers",
+                             "generators: SHAKE256 chains are external (sha3); concrete derivation validated implicitly (any wrong generator makes cross-verification fail)"]),
     "C05": dict(module="ZkElGamal.Props.C05", ns="Zk.Props.C05", trusted=[DALEK, MERLIN],
                 assumptions=[DALEK, MERLIN, "completeness theorems carry the hypothesis that the masking commitments are not the identity (fails with probability ~2^-252 over honest nonces)",
                              "rand::OsRng is external: the model takes nonces as explicit arguments"]),
@@ -102,17 +106,24 @@ MANIFEST_TEXT = {
         text="Verification of the 360 bytes succeeds iff decode, no identity among three commitments and three masking commitments, and E_max + w E_delta + w^2 E_claimed = 0 with c_eq = c - c_max; "
              "two accepting transcripts yield (C_max opens to max_value) or (C_delta and C_claimed open to the same value). Correspondence: both branches real/simulated on true and false statements, residual vectors, max_value classes, perturbed sub-challenge, non-canonical scalars, identity commitments.",
         note=SIGMA_NOTE),
+    "C04": dict(
+        technique="Lean 4 proof (context_ok_iff, verify_ok_iff, mega_decompose = E_ipp - d*E_poly with batching bound, closed forms of sum_of_powers/delta, operand-length lemmas) + differential correspondence with the model as honest and adversarial Bulletproofs prover",
+        text="Theorems: context decoding succeeds iff 1..8 leading non-zero decodable commitments, bit lengths of those slots in 1..=64, everything else zero; the instruction verifies iff exact length, context ok, sum = width, proof decodes, no identity point, challenges exist and the mega-check vanishes; "
+             "the mega-check equals E_ipp - d*E_poly (inner-product relation and polynomial-commitment equation), so offsetting errors survive for at most one d; sum_of_powers (doubling loop) and delta equal their closed forms; the multiscalar operands always have equal lengths. "
+             "Correspondence (64-bit quick; 128/256 thorough): Rust-proved -> model-verified and model-proved -> Rust-verified for extreme and random splits; model prover with non-bit digit vectors, committed != proven value, residuals on A/S/T1/T2/every L_j/R_j, "
+             "cancelling offsets on t_x_blinding/e_blinding, tampered a/b, and malformed contexts (padding, zero in the middle, bit length 0/65/255, empty, wrong sum) each with a proof generated for exactly those context bytes; non-canonical scalars, special values, lengths, other widths.",
+        note="Trusted: Lean kernel; dalek/merlin/sha3 modelled. Not proved: Bulletproofs extractor and prover completeness for arbitrary splits (model prover validated against the Rust verifier)."),
     "C05": dict(
         technique="Lean 4 proof (constructor success, context = statement encoding, byte-level completeness prover->verifier) + differential correspondence of constructors and cross-verification (Rust-proved and model-proved, both verifiers)",
         text="Theorems new_ok / new_context / complete for zero-ciphertext, pubkey validity, ct-ct and ct-commitment equality at the byte level (for all keys, amounts, openings, nonces with non-identity masking commitments); "
              "constructor acceptance conditions for all nine sigma constructors incl. both cap branches (C20 theorems). Correspondence for all nine sigma instructions: boundary amounts, identity auditor key, identity second ciphertext, "
              "fees below and exactly at the cap: constructor outcome and context bytes equal the model's, and every produced proof (Rust prover and model prover) verifies in both verifiers. "
-             "Finding F2 (capped branch unreachable) was exhibited by this check and repaired by a fix: commit. PARTIAL: byte-level completeness theorems for the validity/cap instructions and everything about the three range-proof instructions are not yet included in this check.",
+             "Finding F2 (capped branch unreachable) was exhibited by this check and repaired by a fix: commit. Range instructions: constructor outcome/context and cross-verification in the correspondence (all admissible splits sampled, boundary amounts). PARTIAL: byte-level completeness theorems for the validity/cap/range instructions are not proved (differential only).",
         note=SIGMA_NOTE + " OsRng is external (nonces are explicit in the model)."),
     "C20": dict(
         technique="Lean 4 proof (new = error iff the witness violates the relation, per constructor) + differential correspondence on witnesses violating exactly one relation",
         text="Theorems X_new_none_iff for the nine sigma constructors (zero: decrypts to identity; ct-ct / ct-cmt: decryption and re-encryption/commitment; grouped: exact re-encryption for any number of handles, lo and hi separately; cap: percentage and claimed always, delta only below the cap). "
-             "Correspondence: every single statement point, key, amount and opening perturbed in turn: both sides must refuse; honest ones accepted. PARTIAL: range-proof constructor refusals are not yet in this check.",
+             "Correspondence: every single statement point, key, amount and opening perturbed in turn: both sides must refuse; honest ones accepted. Range constructors: range_new_none_iff (sum != width, length mismatch, > 8 commitments, identity commitment, bit length 0 or > 64) and the same families in the correspondence.",
         note=SIGMA_NOTE),
     "C08": dict(
         technique="Lean 4 proof (no_panic theorems over decoder models with Rust's partial operations explicit) + differential correspondence under catch_unwind with overflow checks on",
